@@ -332,7 +332,15 @@ func checkBuildLiterals(c *Ctx, r *Report) {
 					return
 				}
 				sel := apOf(st.Addr).SelString()
-				f, _, isLit := complitFields(st.Val)
+				if sel != fRmcp && sel != fMsg {
+					return
+				}
+				// the stored value may be built by a helper: its origins are the literal(s)
+				var f map[string]ssa.Value
+				isLit := false
+				if os := viewOrigins(fn, st.Val); len(os) == 1 {
+					f, _, isLit = complitFields(os[0])
+				}
 				if !isLit {
 					return
 				}
